@@ -19,6 +19,16 @@ from simkit.values import T, TracerOverflow, fingerprint, norm, same
 MAXO = {1: 3, 2: 2}
 
 
+def _to_py(item):
+    out = []
+    for c in item:
+        if isinstance(c, dict):
+            out.append(list(c["l"]) if "l" in c else slice(*c["s"]))
+        else:
+            out.append(c)
+    return tuple(out)
+
+
 def load_program(src):
     """Define the algorithm function from source text; inspect.getsource must be able to read it."""
     tag = hashlib.sha256(src.encode()).hexdigest()[:12]
@@ -120,10 +130,19 @@ class Gen:
                     lines.append(f"            {e}")
                 else:
                     lines.append(f"        {e}")
+        outs = r.sample(names, r.randint(1, min(3, k)))
+        if r.random() < 0.3:
+            # a once-used intermediate with start data and its single, start-less consumer (eviction at every order)
+            sp, sq = f"S{k}", f"S{k + 1}"
+            st = r.choice([0, '"A_0"', '"A_0"'])
+            lines += [f'    with "{sp}":', f"        start = {st}", f"        {self.expr(k, 1, False)}",
+                      f'    with "{sq}":', f'        "{sp}"' + (f" + {self.lit(inputs)}" if r.random() < 0.5 else "")]
+            start[sp], start[sq] = st, None
+            names = names + [sp, sq]
+            self.names = names
         for p, herm in sorted(self.products.items()):
             lines.append(f'    with "{p}":')
             lines.append("        hermitian" if herm else "        pass")
-        outs = r.sample(names, r.randint(1, min(3, k)))
         lines.append("    return " + ", ".join('"%s"' % o for o in outs) + ("," if len(outs) == 1 and r.random() < 0.0 else ""))
         return "\n".join(lines) + "\n", names, sorted(self.products), inputs
 
@@ -216,7 +235,7 @@ class Prop:
     probes = ["family_G", "family_T", "family_S", "compared", "value_nonzero", "internal_after_output", "product_requested",
               "hermitian_product", "marker_hermitian", "marker_antihermitian", "clause_diagonal", "clause_offdiagonal",
               "clause_lower", "fn_call", "fn_series_arg", "division", "ifexp", "start_one", "start_input", "start_none",
-              "two_block_optimized", "commuting_false", "offdiag_present", "program_rejected", "prelude_program", "hermitian_product_3", "linear_operator_mode", "family_F", "flags_clause_checked", "eviction_observed",
+              "two_block_optimized", "commuting_false", "offdiag_present", "program_rejected", "prelude_program", "hermitian_product_3", "linear_operator_mode", "family_F", "flags_clause_checked", "slice_request", "eviction_observed",
               "recompute_after_eviction"]
     components_real = ["pymablock.algorithm_parsing (compiler, series_computation), pymablock.series, pymablock.algorithms, "
                        "block_diagonalize wiring of scope (family S)"]
@@ -256,17 +275,26 @@ class Prop:
             else:
                 pool = names
             name = r.choice(pool)
-            n = r.choice(orders)
+            n = r.choice(orders) if r.random() < 0.8 else orders[0]
             if flavour == "descending":
                 n = max((r.choice(orders) for _ in range(3)), key=sum)
-            ops.append([name, r.randrange(nb), r.randrange(nb), list(n)])
+            if r.random() < 0.15:
+                # a multi-element request: blocks by int/slice/list, orders by slices up to n or unsorted lists
+                comp = lambda d: r.choice([r.randrange(d), {"s": [None, None, None]}, {"l": [r.randrange(d) for _ in range(2)]}])  # noqa: E731
+                item = [comp(nb), comp(nb)]
+                lst = r.random() < 0.3
+                for m in n:
+                    item.append({"l": [m, r.randint(0, m)]} if lst else r.choice([m, {"s": [r.choice([None, 0, r.randint(0, m)]), m + 1, None]}]))
+                ops.append([name, "sl", item])
+            else:
+                ops.append([name, r.randrange(nb), r.randrange(nb), list(n)])
         return ops
 
     def gen_G(self, r, tier):
         g = Gen(r, dict(self.features))
         src, names, products, inputs = g.program()
         nb = r.choice([1, 2, 2, 3])
-        ninf = r.choice([1, 1, 2])
+        ninf = r.choice([1, 2])
         cap = 3 if ninf == 1 else 2
         outs = [ln for ln in src.splitlines() if ln.strip().startswith("return")][0]
         outputs = [s.strip().strip('"') for s in outs.replace("return", "").split(",") if s.strip()]
@@ -372,7 +400,10 @@ class Prop:
         optimised = gl["series"]
         violation = None
         compared = 0
-        for opi, (name, i, j, n) in enumerate(case["ops"]):
+        for opi, op in enumerate(case["ops"]):
+            if op[1] == "sl":
+                continue
+            name, i, j, n = op
             if i >= nb or j >= nb or sum(n) > case["cap"]:
                 continue
             index = (i, j, *n)
@@ -530,14 +561,35 @@ class Prop:
         internal_after = False
         hist = {}
         rejected = False
-        for opi, (name, i, j, n) in enumerate(case["ops"]):
+        ids = np.arange(nb * nb * (MAXO[ninf] + 1) ** ninf).reshape((nb, nb) + (MAXO[ninf] + 1,) * ninf)
+        cells_of = list(np.ndindex(*ids.shape))
+        for opi, op in enumerate(case["ops"]):
             if violation or rejected:
                 break
-            if name not in series or i >= nb or j >= nb or sum(n) > case["cap"]:
+            name = op[0]
+            if name not in series:
                 continue
-            index = (i, j, *n)
+            if op[1] == "sl":
+                request = _to_py(op[2])
+                try:
+                    sel = ids[request]
+                except IndexError:
+                    continue
+                cells = [tuple(int(x) for x in cells_of[int(k)]) for k in np.asarray(sel).ravel().tolist()]
+                bump("slice_request")
+            else:
+                _, i, j, n = op
+                if i >= nb or j >= nb:
+                    continue
+                request = (i, j, *n)
+                sel = None
+                cells = [request]
+            if not cells or any(sum(c[2:]) > case["cap"] for c in cells):
+                continue
+            index = cells[0]
             try:
-                want = ref.value(name, index)
+                wants = [ref.value(name, c) for c in cells]
+                want = wants[0]
                 ref_exc = None
             except refdsl.IllFounded:
                 rejected = True
@@ -550,7 +602,7 @@ class Prop:
             except Exception as e:
                 ref_exc = e
             try:
-                got = series[name][index]
+                got = series[name][request]
                 got_exc = None
             except Exception as e:
                 got_exc = e
@@ -561,7 +613,7 @@ class Prop:
                     rejected = True
                     bump("program_rejected")
                     break
-            desc = f"op#{opi} {name}[{index}]"
+            desc = f"op#{opi} {name}[{request}]"
             if ref_exc is not None:
                 if got_exc is None:
                     bump("ref_raises_only")
@@ -577,10 +629,28 @@ class Prop:
                      f"{desc}: the reference interpreter gives {self._show(want)}, the compiled series raised {type(cause).__name__}: {cause}",
                      {"name": name, "exc": type(cause).__name__, "msg": str(cause)})
                 break
-            if not same(norm(got), norm(want), stats):
+            if sel is not None and isinstance(sel, np.ndarray):
+                if not isinstance(got, np.ma.MaskedArray) or got.shape != sel.shape:
+                    fail("array-shape", f"{desc}: result {type(got).__name__} of shape {getattr(got, 'shape', None)}, numpy model gives {sel.shape}")
+                    break
+                mask = np.ma.getmaskarray(got).ravel()
+                data = got.data.ravel()
+                bad = None
+                for k, (c, w) in enumerate(zip(cells, wants)):
+                    g = zero if mask[k] else data[k]
+                    if not same(norm(g), norm(w), stats):
+                        bad = (c, g, w)
+                        break
+                if bad:
+                    fail("value-mismatch", f"{desc}: cell {bad[0]}: compiled = {self._show(bad[1])}, reference = {self._show(bad[2])}",
+                         {"name": name, "index": list(bad[0])})
+                    break
+            elif not same(norm(got), norm(want), stats):
                 fail("value-mismatch", f"{desc}: compiled = {self._show(got)}, reference = {self._show(want)}",
                      {"name": name, "index": list(index)})
                 break
+            if any(w is not zero and w is not one for w in wants[1:]):
+                nonzero += 1
             compared += 1
             seen_names.add(name)
             if want is not zero and want is not one:
